@@ -545,6 +545,12 @@ pub fn run(tier: Tier) -> i32 {
     cn += a.n;
   }
   let _ = std::fs::remove_dir_all(&dir);
+  for i in [0usize, invs.len() / 2, invs.len() - 1] {
+    if let Some(inv) = invs.get(i) {
+      let (ok, fail) = expected(inv, &docs, &sins);
+      run.sample(json!({"args": args_of(inv, &docs), "stdin": inv.stdin.map(|s| sins[s].0), "expected_success_reports": ok, "expected_ci_failure": fail}));
+    }
+  }
   run.states = n + cn;
   run.transitions = n + cn;
   run.traces = n + cn;
